@@ -1,8 +1,10 @@
+import Driver.Drv.GetBlock
 import Driver.Drv.Lru
 import Driver.Drv.Store
 namespace Driver
 
 def drivers : List (String × CaseFn) := [
+  ("getblock", Driver.Drv.GetBlock.runCase),
   ("lru", Driver.Drv.Lru.runCase),
   ("store", Driver.Drv.Store.runCase)]
 
